@@ -29,6 +29,7 @@ import (
 	"context"
 	"fmt"
 	"runtime"
+	"sort"
 	"strings"
 	"sync"
 	"time"
@@ -52,6 +53,21 @@ type h1xConn struct {
 	interims int // since the last request was handed on
 	total    int
 	other    int // writes that are neither an interim response nor a final response of the receiver
+	hcount   []int // header entries of every request handed on
+}
+
+// digest of the SET of header entries (an entry that occurs several times counts once) and the number of entries: the
+// multiplicity is reported on its own line (kind h1seg, side trl), see KNOWN_FINDINGS (fasthttp ReadTrailer)
+func h1xHeaderSet(visit func(func(k, v []byte))) (string, int) {
+	seen := map[string]bool{}
+	n := 0
+	visit(func(k, v []byte) { seen[strings.ToLower(string(k))+":"+string(v)] = true; n++ })
+	hs := make([]string, 0, len(seen))
+	for e := range seen {
+		hs = append(hs, e)
+	}
+	sort.Strings(hs)
+	return h1sFnv([]byte(strings.Join(hs, "\n"))), n
 }
 
 func (c *h1xConn) Write(bufs ...buffer.IoBuffer) error {
@@ -113,7 +129,11 @@ func (r *h1xReceiver) OnReceive(ctx context.Context, headers types.HeaderMap, da
 		if _, has := h.Get("Expect"); has {
 			e = 1
 		}
-		d = fmt.Sprintf("%s:%s:%d:%s:%s:e%d:i%d", hx.Hex(h.Method()), hx.Hex(h.RequestURI()), n, bh, h1sHeaders(h.VisitAll), e, r.l.conn.takeInterims())
+		hs, cnt := h1xHeaderSet(h.VisitAll)
+		d = fmt.Sprintf("%s:%s:%d:%s:%s:e%d:i%d", hx.Hex(h.Method()), hx.Hex(h.RequestURI()), n, bh, hs, e, r.l.conn.takeInterims())
+		r.l.conn.wmu.Lock()
+		r.l.conn.hcount = append(r.l.conn.hcount, cnt)
+		r.l.conn.wmu.Unlock()
 	}
 	r.l.o.add(d)
 	answer := func() {
@@ -134,7 +154,7 @@ func (r *h1xReceiver) OnReceive(ctx context.Context, headers types.HeaderMap, da
 
 // h1xRun delivers stream in the given chunks to a fresh real server stream connection.  nExp / nInt = complete requests /
 // interim responses the generator expects (only used to know how long to wait; what is printed is what was observed).
-func h1xRun(stream []byte, chunks []int, delay bool, nExp, nInt int) (string, string, int) {
+func h1xRun(stream []byte, chunks []int, delay bool, nExp, nInt int) (string, string, int, string) {
 	conn := &h1xConn{}
 	o := &h1sObs{got: make(chan func(), 64)}
 	ctx := variable.NewVariableContext(context.Background())
@@ -210,13 +230,14 @@ func h1xRun(stream []byte, chunks []int, delay bool, nExp, nInt int) (string, st
 	if conn.other > 0 {
 		tail += 1000 * conn.other
 	}
+	counts := ints(conn.hcount)
 	conn.wmu.Unlock()
 	o.mu.Lock()
 	defer o.mu.Unlock()
 	if len(o.msgs) == 0 {
-		return "-", stat, tail
+		return "-", stat, tail, counts
 	}
-	return strings.Join(o.msgs, ","), stat, tail
+	return strings.Join(o.msgs, ","), stat, tail, counts
 }
 
 // ---------------------------------------------------------------------------------------------------------------
@@ -252,6 +273,7 @@ type h1xReq struct {
 	raw     []byte
 	headLen int
 	expect  bool // MayContinue: the value is exactly 100-continue
+	trail   bool // chunked with trailers
 }
 
 func h1xBodySize(r *hx.Rng, big bool) int {
@@ -279,6 +301,9 @@ func h1xRequest(c *hx.Ctx, seq int, big bool, shape string) h1xReq {
 	r := c.Rng
 	if shape == "" {
 		shape = r.PickS(h1xShapes)
+	}
+	if big || h1xNoTrailers { // the trailer lines are predicted read by read (trl): keep them out of streams larger than the reader's buffer
+		shape = strings.TrimSuffix(shape, "-trailers")
 	}
 	c.Count("h1seg.exp.gen.req." + shape)
 	var b bytes.Buffer
@@ -327,7 +352,7 @@ func h1xRequest(c *hx.Ctx, seq int, big bool, shape string) h1xReq {
 		b.WriteString(exp)
 	}
 	b.WriteString("\r\n")
-	q := h1xReq{headLen: b.Len(), expect: exp != "" && !strings.HasPrefix(shape, "xmixed")}
+	q := h1xReq{headLen: b.Len(), expect: exp != "" && !strings.HasPrefix(shape, "xmixed"), trail: kind == "chunked-trailers"}
 	b.Write(body)
 	q.raw = b.Bytes()
 	return q
@@ -338,16 +363,23 @@ type h1xStream struct {
 	reqs   []h1xReq
 	nInt   int // interim responses expected (complete Expect heads, the tail's included)
 	whole  string
+	wcount string // header entries per request, whole stream in one read
+	trail  bool   // a request of the stream has trailers
 }
 
 func (s *h1xStream) finish(c *hx.Ctx) {
-	w, st, tl := h1xRun(s.stream, []int{len(s.stream)}, false, len(s.reqs), s.nInt)
+	w, st, tl, hc := h1xRun(s.stream, []int{len(s.stream)}, false, len(s.reqs), s.nInt)
 	s.whole = fmt.Sprintf("%s %s %d", w, st, tl)
+	s.wcount = hc
 	c.Count(fmt.Sprintf("h1seg.exp.gen.requests=%d", len(s.reqs)))
 }
 
+var h1xNoTrailers bool
+
 func h1xBuild(c *hx.Ctx, big bool, shapes []string) *h1xStream {
 	r := c.Rng
+	// trailers only in a minority of the streams (the multiplicity of trailer headers is a known finding)
+	h1xNoTrailers = big || (len(shapes) == 0 && r.Chance(60))
 	s := &h1xStream{}
 	n := 2 + r.Intn(4)
 	if len(shapes) > 0 {
@@ -366,6 +398,7 @@ func h1xBuild(c *hx.Ctx, big bool, shapes []string) *h1xStream {
 		if q.expect {
 			s.nInt++
 		}
+		s.trail = s.trail || q.trail
 		s.reqs = append(s.reqs, q)
 		s.stream = append(s.stream, q.raw...)
 	}
@@ -399,13 +432,21 @@ func (s *h1xStream) emit(c *hx.Ctx, chunks []int, delay bool, how string) {
 		c.Count("h1seg.exp.skipped-after-stuck")
 		return
 	}
-	got, st, tl := h1xRun(s.stream, chunks, delay, len(s.reqs), s.nInt)
+	got, st, tl, hc := h1xRun(s.stream, chunks, delay, len(s.reqs), s.nInt)
 	d := "0"
 	if delay {
 		d = "1"
 	}
 	c.Emit("C07", fmt.Sprintf("h1seg exp %s %s %s", d, hx.Hex(s.stream), ints(chunks)), fmt.Sprintf("%s %s %s %d", s.whole, got, st, tl))
 	c.Count("h1seg.exp." + how + ".delay=" + d)
+	// multiplicity of the header entries: reported for every stream with trailers, and whenever it depends on the chunking
+	if s.trail || hc != s.wcount {
+		c.Emit("C07", fmt.Sprintf("h1seg trl %s %s %s", d, hx.Hex(s.stream), ints(chunks)), fmt.Sprintf("%s %s", s.wcount, hc))
+		c.Count("h1seg.trl." + how)
+		if hc != s.wcount {
+			c.Count("h1seg.trl.multiplicity-differs")
+		}
+	}
 }
 
 func (s *h1xStream) aligned() []int {
